@@ -1,6 +1,6 @@
 #!/bin/sh
 # regenerate coq/_CoqProject from the .v files present (dependency order is coqdep's business)
-cd "$(dirname "$0")/../coq"
+if [ -n "$1" ]; then cd "$1"; else cd "$(dirname "$0")/../coq"; fi
 {
   echo "-Q . Semadb"
   echo "-arg -w -arg -notation-overridden,-deprecated-hint-without-locality,-deprecated-instance-without-locality,-ambiguous-paths"
